@@ -137,6 +137,37 @@ def p_warned(I, a, n):
     return mk_bool(len(I.path.warn_log) > 0)
 
 
+def p_coerce_like(I, a, n):
+    """the literal (a string) interpreted in the type of the value v"""
+    from .calls import str2int, str2real
+    v, lit = a
+    if v.kind in ('int',):
+        return mk_int(str2int(lit.t))
+    if v.kind == 'real':
+        return mk_real(str2real(lit.t))
+    if v.kind == 'str':
+        return mk_str(lit.t)
+    raise OutOfSubset(f'coerce_like for a value of kind {v.kind}')
+
+
+def p_coercible(I, a, n):
+    from .calls import str_is_int, str_is_real
+    v, lit = a
+    if v.kind == 'int':
+        return mk_bool(str_is_int(lit.t))
+    if v.kind == 'real':
+        return mk_bool(str_is_real(lit.t))
+    if v.kind in ('str', 'none'):
+        return mk_bool(True)
+    raise OutOfSubset(f'coercible for a value of kind {v.kind}')
+
+
+def p_comparable(I, a, n):
+    x, y = a
+    num = ('int', 'real')
+    return mk_bool((x.kind in num and y.kind in num) or (x.kind == 'str' and y.kind == 'str'))
+
+
 def p_src_T(I, a, n):
     return a[0].extra['T']
 
@@ -145,7 +176,7 @@ def p_src_R(I, a, n):
     return a[0].extra['R']
 
 
-PRIMS = {'src_T': p_src_T, 'src_R': p_src_R, 'be': p_be, 'le': p_le, 'sl': p_sl, 'cat': p_cat, 'low': p_low, 'shr': p_shr, 'pow2': p_pow2, 'tb': p_tb,
+PRIMS = {'comparable': p_comparable, 'coerce_like': p_coerce_like, 'coercible': p_coercible, 'src_T': p_src_T, 'src_R': p_src_R, 'be': p_be, 'le': p_le, 'sl': p_sl, 'cat': p_cat, 'low': p_low, 'shr': p_shr, 'pow2': p_pow2, 'tb': p_tb,
          'tl': p_tl, 'bat': p_bat, 'rpow': p_rpow, 'rpow2': p_rpow2, 'bfind': p_bfind, 'band': p_band, 'bor': p_bor,
          'toreal': p_toreal, 'i2r': p_toreal, 'at': p_at, 'append': p_append, 'is_int_valued': p_is_int_valued,
          'decode': p_decode, 'decodable': p_decodable, 'cls_is': p_cls_is, 'warned': p_warned}
